@@ -159,6 +159,51 @@ def _special(kind):
     return r
 
 
+def _slip(kind):
+    """Design programs with a slip after which an object's name and the name it is held under disagree (a signal renamed
+    after it was added, at the top or one level down; one signal held under two names): flatten() matches nets by name, so
+    it must refuse such a design - or keep the two nets apart."""
+    import hdl21 as h
+    from hdl21.flatten import flatten
+
+    try:
+        cell = h.Module(name="SCell")
+        cell.p, cell.n = h.Port(), h.Port()
+        cell.r = h.R(r=1)(p=cell.p, n=cell.n)
+        mid = h.Module(name="SMid")
+        mid.a, mid.b, mid.g = h.Port(), h.Port(), h.Port()
+        mid.x, mid.y = h.Signal(), h.Signal()
+        mid.c0 = cell(p=mid.a, n=mid.x)
+        mid.c1 = cell(p=mid.b, n=mid.y)
+        mid.c2 = cell(p=mid.x, n=mid.g)
+        mid.c3 = cell(p=mid.y, n=mid.g)
+        top = h.Module(name="STop")
+        top.g = h.Port()
+        top.x, top.y, top.v, top.w = h.Signals(4)
+        top.u0 = cell(p=top.x, n=top.g)
+        top.u1 = cell(p=top.y, n=top.g)
+        top.m = mid(a=top.v, b=top.w, g=top.g)
+        if kind == "top_renamed":
+            top.x.name = "y"
+        elif kind == "mid_renamed":
+            mid.x.name = "y"
+        elif kind == "top_alias":
+            top.z = top.x  # the signal now answers to `z`; it is still held as `x` too
+            top.u2 = cell(p=top.z, n=top.g)
+        want_apart = {"top_renamed": ("u0:r", "u1:r"), "mid_renamed": ("m:c0:r", "m:c1:r"), "top_alias": ("u0:r", "u1:r")}[kind]
+        port = "n" if kind == "mid_renamed" else "p"
+        flat = flatten(top)
+    except Exception as e:
+        return ("raised", short_exc(e))
+    try:
+        a, b_ = flat.instances[want_apart[0]].conns[port], flat.instances[want_apart[1]].conns[port]
+    except Exception as e:
+        return ("bad", "flattened module lacks the expected instances: " + short_exc(e))
+    if a is b_ or a.name == b_.name:
+        return ("bad", f"{want_apart[0]}.{port} and {want_apart[1]}.{port}, on two different nets of the design, are on one net ({a.name!r}) of the flattened module")
+    return ("ok", None)
+
+
 def run(ctx):
     items = []
     ch2s = list(itertools.product(*[m for (_i, _p, m) in L2_MENU]))
@@ -193,6 +238,13 @@ def run(ctx):
         ctx.outcome("special:" + status)
         if status == "bad":
             ctx.violation(dict(leaf="-", names="-", what="wrong flattening of " + kind), dict(special=kind), detail)
+    for kind in ("top_renamed", "mid_renamed", "top_alias"):
+        status, detail = _slip(kind)
+        ctx.count(states=1, transitions=3, traces_validated_against_impl=1)
+        ctx.fam("name_slips", **{status: 1})
+        ctx.outcome("slip:" + status)
+        if status == "bad":
+            ctx.violation(dict(leaf="-", names="-", what="wrong flattening after a naming slip: " + kind), dict(slip=kind), detail)
     ctx.sample(dict(item=[items[0][0], list(items[0][1]), list(items[0][2]), items[0][3]], design=mk(items[0])))
     ctx.sample(dict(item=[items[-1][0], list(items[-1][1]), list(items[-1][2]), items[-1][3]]))
     ctx.assume("instance names are not chosen adversarially (the comparison maps reference paths to ':'-joined names); signal names are")
@@ -200,7 +252,9 @@ def run(ctx):
 
 def replay(body):
     c = body["case"]
-    if "special" in c:
+    if "slip" in c:
+        r = _slip(c["slip"])
+    elif "special" in c:
         r = _special(c["special"])
     else:
         it = c["item"]
